@@ -344,7 +344,33 @@ def _packet_classes(tree):
                 yield rel, node
 
 
+def _field_decoders_no_truthiness(tree, ob):
+    ''' a field decoder of the TCPCL formats that decides "not all here yet" looks at lengths, never at the truthiness of
+    the octets that are left: an item of length zero at the very end of what was read has nothing left and is complete. '''
+    rel = 'tcpcl/formats.py'
+    n = 0
+    for node in tree.module(rel).tree.body:
+        if not isinstance(node, ast.ClassDef):
+            continue
+        for m in node.body:
+            if not (isinstance(m, ast.FunctionDef) and m.name == 'getfield' and len(m.args.args) >= 3):
+                continue
+            n += 1
+            sp = m.args.args[2].arg
+            qual = node.name + '.getfield'
+            fv = FuncView(tree, rel, qual)
+            bad = [cn for cn in fv.cfg.nodes if cn.kind == 'cond' and any(t == sp for (t, pol) in norm.all_atoms(cn.ast))]
+            raises = [r for r in walk_local(m) if isinstance(r, ast.Raise)]
+            if bad and raises:
+                ob.violate(rel, qual, 'if not {}: raise ...'.format(sp), 'the field decoder takes "no octets left" for "not all here yet": an item of length zero that ends exactly where the read ends '
+                           '(a zero-length XFER_SEGMENT at a read boundary) is held back as partial until another octet arrives', bad[0].ast, sure=True)
+            else:
+                ob.site(rel, m, qual + ' does not test the remaining octets by truthiness')
+    return n
+
+
 def c07c(tree, ob):
+    _field_decoders_no_truthiness(tree, ob)
     for (rel, cnode) in _packet_classes(tree):
         flds = schema.fields_desc(tree, rel, cnode.name, inherit=False)
         for fld in flds:
